@@ -278,7 +278,7 @@ void phist_exec(const phist *h, int i, vh_obj *ob, ctrans *t, const char *prefix
         break;
     case P_SET_KEY: {
         uint8_t *a = NULL;
-        if (!(o->flags & F_NULL_PTR)) { a = pl(0, o, 0, o->dlen); ua = 1; memcpy(a, h->pool + o->doff, o->dlen); }
+        if (!(o->flags & F_NULL_PTR)) { a = pl(0, o, 0, o->dlen); ua = 1; memcpy(a, h->pool + o->doff, o->dlen); vh_gprotect(0, 1); }
         vh_call_begin("parallel_ecb_set_key"); ret = c->par_set_key(obj, a, o->len, o->rounds, (int)h->mode[i]); vh_call_end();
         break; }
     case P_ENCRYPT: case P_DECRYPT: {
@@ -289,6 +289,8 @@ void phist_exec(const phist *h, int i, vh_obj *ob, ctrans *t, const char *prefix
         if (c->id == CIPH_MANTIS && (o->flags & F_TWEAK_IN)) tw = in;
         else if (c->id == CIPH_MANTIS && (o->flags & F_TWEAK_OUT) && !(o->flags & F_INPLACE)) { tw = out; vh_make_def(out, o->len); memcpy(out, h->pool + o->doff + o->len, o->len); }
         else if (c->id == CIPH_MANTIS) { tw = pl(3, o, 0, o->len); ut = 1; memcpy(tw, h->pool + o->doff + o->len, o->len); }
+        if (!(o->flags & F_INPLACE)) vh_gprotect(1, 1);       /* out of place: input (and tweak) pages are read-only during the call */
+        if (ut) vh_gprotect(3, 1);
         vh_call_begin(o->kind == P_DECRYPT ? "parallel_ecb_decrypt" : "parallel_ecb_encrypt");
         ret = (o->kind == P_DECRYPT ? c->par_decrypt : c->par_encrypt)((o->flags & F_NULL_OUT) ? NULL : out, (o->flags & F_NULL_IN) ? NULL : in, tw, o->len, obj);
         vh_call_end();
